@@ -225,6 +225,50 @@ async def _caller(world, driver, c, recs, hooks):
         await asyncio.sleep(op.get("gap_us", 0) / 1e6)
 
 
+def _schedule_traffic(rr):
+    """Transactions of other masters on the shared bus, as the gateway
+    observes them.  Each item: {"t_us", "frames": [[bits, value], ...] (sent
+    back to back, e.g. a send-twice pair), "answer": None | ["value", v] |
+    ["error", v], "noframe": bool, "gap2_us": gap between the frames}."""
+    world, dev, line = rr.world, rr.dev, rr.line
+    rr.traffic_log = []
+    if not hasattr(dev, "observe_forward"):
+        return
+    t0 = world.loop.time()
+
+    def fire(idx, item):
+        from .hidsim import T_BF, T_NO_ANSWER, ff_dur
+        now = world.now_us()
+        end = now
+        first = True
+        for bits, value in item["frames"]:
+            dur = ff_dur(bits)
+            if first:
+                start = line.reserve(now, dur)
+            else:
+                start = line.reserve(end + item.get("gap2_us", 14000), dur, gap_us=0)
+            first = False
+            end = start + dur
+            dev.observe_forward(bits, value, end)
+            rr.traffic_log.append((end, "ff", bits, value, idx))
+            world.log.add(end * 1e-6, "bus", "other", (bits, value))
+        ans = item.get("answer")
+        if ans:
+            bf_end = end + item.get("settle_us", 7000) + T_BF
+            line.free_at = max(line.free_at, bf_end)
+            dev.observe_backward(ans[1], bf_end, error=(ans[0] == "error"))
+            rr.traffic_log.append((bf_end, "bf", ans[0], ans[1], idx))
+            world.log.add(bf_end * 1e-6, "bus", "other-bf", tuple(ans))
+        elif item.get("noframe") and hasattr(dev, "observe_none"):
+            dev.observe_none(end + T_NO_ANSWER)
+            line.free_at = max(line.free_at, end + T_NO_ANSWER)
+            rr.traffic_log.append((end + T_NO_ANSWER, "none", None, None, idx))
+        world.fault("foreign-traffic")
+
+    for idx, item in enumerate(rr.plan.get("traffic") or []):
+        world.loop.at(t0 + item["t_us"] / 1e6, fire, idx, item)
+
+
 def make_driver(plan, world):
     drv = plan["driver"]
     k = plan["knobs"]
@@ -285,6 +329,7 @@ def run(plan, hooks=None):
             return
         if "connected" in hooks:
             hooks["connected"](rr)
+        _schedule_traffic(rr)
         tasks = [asyncio.get_running_loop().create_task(
             _caller(world, driver, c, rr.ops, hooks), name="caller-" + c["id"])
             for c in plan["callers"]]
